@@ -47,8 +47,14 @@ def parseArg (tbl : List FloatEntry) (i : Nat) (tok : String) : Arg :=
   | "u8" => .uint 8 n | "u16" => .uint 16 n | "u32" => .uint 32 n | "ul" => .uint 64 n | "ull" => .uint 64 n
   | "c" => .char z | "wc" => .wchar z | "c8" => .char8 n | "c16" => .char16 n | "c32" => .char32 n
   | "b" => .bool (n != 0)
-  | "cs" | "S" | "ss" | "sv" => .str (parseUnits 8 v)
-  | "cn" => .nullStr
+  | "cs" | "p8" => .str ((parseUnits 8 v).takeWhile (· != 0))     -- NUL-terminated pointers see the text before the first NUL
+  | "S" | "ss" | "sv" | "s8" | "v8" => .str (parseUnits 8 v)
+  | "cn" | "n16" | "n32" | "nw" | "n8" => .nullStr
+  -- wide text: pointers (units before the first zero unit), std::basic_string, std::basic_string_view; wchar_t is 32-bit here
+  | "p16" => .wide .utf16 ((parseUnits 16 v).takeWhile (· != 0))
+  | "s16" | "v16" => .wide .utf16 (parseUnits 16 v)
+  | "p32" | "pw" => .wide .utf32 ((parseUnits 32 v).takeWhile (· != 0))
+  | "s32" | "v32" | "sw" | "vw" => .wide .utf32 (parseUnits 32 v)
   | "d" | "fl" => .float (renderOf tbl i)
   | _ => .nullStr
 
@@ -141,6 +147,7 @@ def handle (c : Case) : Verdict :=
     | some (.sint w _) => s!"i{w}" | some (.uint w _) => s!"u{w}" | some (.char _) => "char" | some (.wchar _) => "wchar"
     | some (.char8 _) => "c8" | some (.char16 _) => "c16" | some (.char32 _) => "c32" | some (.bool _) => "bool"
     | some (.str _) => "str" | some .nullStr => "null" | some (.float _) => "float" | none => "none"
+    | some (.wide .utf16 _) => "wide16" | some (.wide _ _) => "wide32"
   { corr := ms == obs,
     spec := specOk,
     model := ms,
